@@ -410,6 +410,10 @@ func (fr *Frame) havocTarget(f *ssa.Function, target string, args []Val, in ssa.
 				fr.store(PtrV{Cell: a.Cell, Path: a.Path}, nv)
 			}
 		default:
+			if tv, ok := args[i].(TV); ok && isSliceSort(tv.T.Sort) && fr.modifiesSliceParam() {
+				fr.ex.note("%s: bytes written by a callee into a slice parameter are not tracked inside the body (the contract's modifies clause havocs it at call sites)", shortName(fr.fn.String()))
+				return
+			}
 			fr.ex.oos("%s: modifies %s on a value that is not a local cell (%T) at %s", shortName(fr.fn.String()), target, args[i], fr.pos(in))
 		}
 		return
